@@ -86,6 +86,8 @@ def run_case(spec, server=None):
 
 
 def replay(spec):
+    if spec.get("empty_store"):
+        return run_template_case(spec)[0]
     b, _, _ = run_case(spec)
     return b
 
@@ -189,8 +191,24 @@ def random_worker(n, seed):
     return col
 
 
+def run_template_case(spec):
+    """The template-building requests on an EMPTY store, judged like any other case."""
+    srv = H.Server()
+    try:
+        return run_case(spec, srv)
+    finally:
+        srv.close()
+
+
 def run(ctx):
     versions = [(1, 0), (1, 2), (2, 0)] if ctx.quick else list(H.VERSIONS)
+    tspec = {"label": "template-build", "empty_store": True, "reqs": store.template_requests()}
+    tb, tnt, tcl = run_template_case(tspec)
+    if tb:
+        # the standard store itself cannot be built without hitting the internal-error path
+        col = core.Collector(PID)
+        col.record(tspec, nontrivial=True, classes=["template-build"] + tcl, buckets=tb)
+        return col
     n = core.NCPU
     jobs = [(versions, i, n) for i in range(n)]
     dicts = core.run_sharded("vlib.props.c13", "grid_worker", jobs)
